@@ -3,7 +3,7 @@
 # Never leaves /repo modified. Prints one line per check: SEED <patch> <ID> rc=<rc> violations=<n> keys=...
 PATCH="$(realpath "$1")"; shift
 if [ -n "$(git -C /repo status --porcelain --untracked-files=no)" ]; then echo "refusing: /repo has uncommitted changes"; exit 2; fi
-trap 'git -C /repo reset -q --hard HEAD >/dev/null 2>&1' EXIT   # safe: the script refuses to start on a dirty /repo
+trap 'git -C /repo reset -q --hard HEAD >/dev/null 2>&1; git -C /verif clean -qfX replays/ >/dev/null 2>&1' EXIT   # replays written while a seed was applied are not kept   # safe: the script refuses to start on a dirty /repo
 if ! git -C /repo apply "$PATCH" 2>/dev/null; then
   REB="$(dirname "$PATCH")/patch-rebased.diff"
   if [ -f "$REB" ] && git -C /repo apply "$REB" 2>/dev/null; then :;
